@@ -29,7 +29,7 @@ def gen_case(r, tier, sizes):
     ops = ["add:%s:%s" % (hx(k), hx(v)) for k, v in user]
     cl = None
     if decl == "chunked":
-        ops.insert(r.randrange(len(ops) + 1), "ste" if r.random() < 0.7 else "add:%s:%s" % (hx(b"Transfer-Encoding"), hx(r.choice([b"chunked", b"gzip, chunked"]))))
+        ops.insert(r.randrange(len(ops) + 1), "ste" if r.random() < 0.7 else "add:%s:%s" % (hx(b"Transfer-Encoding"), hx(r.choice([b"chunked", b"gzip, chunked", b"chunked,", b"gzip, chunked , ", b",Chunked", b"chunked ,,", b"\tchunked\t"]))))
     elif decl.startswith("cl"):
         cl = {"cl=": n, "cl-": max(0, n - r.choice([1, 2, 100])), "cl+": n + r.choice([1, 5, 1000]), "cl0": 0}[decl]
         ops.insert(r.randrange(len(ops) + 1), "scl:%d" % cl)
@@ -49,7 +49,7 @@ def gen_case(r, tier, sizes):
             ops.append("rm:" + hx(spell(b"Content-Length")))
         elif k < 0.75:
             ops.append("ste")
-            ops.append("rep:%s:%s" % (hx(spell(b"transfer-encoding")), hx(r.choice([b"chunked", b"gzip, chunked"]))))
+            ops.append("rep:%s:%s" % (hx(spell(b"transfer-encoding")), hx(r.choice([b"chunked", b"gzip, chunked", b"chunked, ", b"gzip,chunked,"]))))
         elif k < 0.9:
             ops.append("scc")
             ops.append("rm:" + hx(spell(b"connection")))
